@@ -10,7 +10,8 @@ package main
 //     DeliverTx mode,
 //   - the ante handler actually wired into the application (BaseApp.anteHandler).
 // Driver "ante_route_exh": the same on every tree with at most K nodes over a
-// small alphabet.
+// small alphabet.  Driver "ante_route_opts": every list of at most three
+// extension options over {E W D U Ex Wx Dx}, on a transaction each route would accept.
 
 import (
 	"encoding/json"
@@ -52,6 +53,12 @@ import (
 func init() {
 	register("ante_route", arDriver)
 	register("ante_route_exh", arExhDriver)
+	register("ante_route_opts", func(cfg Config, out *Out) error {
+		if cfg.Replay != "" {
+			return arDriver(cfg, out)
+		}
+		return arOptionSweep(out)
+	})
 }
 
 // ---------------------------------------------------------------- input
@@ -183,46 +190,58 @@ func arWiredHandler(e *Env) (h sdk.AnteHandler, err error) {
 	return h, nil
 }
 
-func arNewEnv() (*arEnv, error) {
+// the two handlers are built once: they hold keepers, no context
+var arBuilt, arWired sdk.AnteHandler
+var arTxCfg client.TxConfig // app.GetTxConfig() builds a whole encoding config on every call
+
+func arNewEnv(funded bool) (*arEnv, error) {
 	e := forkEnv()
 	a := e.App
 	// what baseapp puts into the context of every transaction
 	e.Ctx = e.Ctx.WithConsensusParams(a.BaseApp.GetConsensusParams(e.Ctx)).WithBlockGasMeter(sdk.NewInfiniteGasMeter())
-	txCfg := a.GetTxConfig()
-	// exactly the construction of app.go setAnteHandler (maxGasWanted = its default 0)
-	options := ante.HandlerOptions{
-		Cdc:                    a.AppCodec(),
-		AccountKeeper:          a.AccountKeeper,
-		BankKeeper:             a.BankKeeper,
-		ExtensionOptionChecker: haqqtypes.HasDynamicFeeExtensionOption,
-		EvmKeeper:              a.EvmKeeper,
-		StakingKeeper:          a.StakingKeeper,
-		FeegrantKeeper:         a.FeeGrantKeeper,
-		DistributionKeeper:     a.DistrKeeper,
-		IBCKeeper:              a.IBCKeeper,
-		FeeMarketKeeper:        a.FeeMarketKeeper,
-		SignModeHandler:        txCfg.SignModeHandler(),
-		SigGasConsumer:         ante.SigVerificationGasConsumer,
-		MaxTxGasWanted:         0,
-		TxFeeChecker:           ethante.NewDynamicFeeChecker(a.EvmKeeper),
+	if arTxCfg == nil {
+		arTxCfg = a.GetTxConfig()
 	}
-	if err := options.Validate(); err != nil {
-		return nil, err
-	}
-	wired, err := arWiredHandler(e)
-	if err != nil {
-		return nil, err
+	txCfg := arTxCfg
+	if arBuilt == nil {
+		// exactly the construction of app.go setAnteHandler (maxGasWanted = its default 0)
+		options := ante.HandlerOptions{
+			Cdc:                    a.AppCodec(),
+			AccountKeeper:          a.AccountKeeper,
+			BankKeeper:             a.BankKeeper,
+			ExtensionOptionChecker: haqqtypes.HasDynamicFeeExtensionOption,
+			EvmKeeper:              a.EvmKeeper,
+			StakingKeeper:          a.StakingKeeper,
+			FeegrantKeeper:         a.FeeGrantKeeper,
+			DistributionKeeper:     a.DistrKeeper,
+			IBCKeeper:              a.IBCKeeper,
+			FeeMarketKeeper:        a.FeeMarketKeeper,
+			SignModeHandler:        txCfg.SignModeHandler(),
+			SigGasConsumer:         ante.SigVerificationGasConsumer,
+			MaxTxGasWanted:         0,
+			TxFeeChecker:           ethante.NewDynamicFeeChecker(a.EvmKeeper),
+		}
+		if err := options.Validate(); err != nil {
+			return nil, err
+		}
+		wired, err := arWiredHandler(e)
+		if err != nil {
+			return nil, err
+		}
+		arBuilt, arWired = ante.NewAnteHandler(options), wired
 	}
 	priv := arPrivKey()
 	me := sdk.AccAddress(priv.PubKey().Address().Bytes())
-	if err := testutil.FundAccount(e.Ctx, a.BankKeeper, me, sdk.NewCoins(sdk.NewCoin(utils.BaseDenom, sdkmath.NewIntWithDecimal(1, 24)))); err != nil {
-		return nil, err
-	}
-	if a.AccountKeeper.GetAccount(e.Ctx, me) == nil {
-		a.AccountKeeper.SetAccount(e.Ctx, a.AccountKeeper.NewAccountWithAddress(e.Ctx, me))
+	if funded {
+		if err := testutil.FundAccount(e.Ctx, a.BankKeeper, me, sdk.NewCoins(sdk.NewCoin(utils.BaseDenom, sdkmath.NewIntWithDecimal(1, 24)))); err != nil {
+			return nil, err
+		}
+		if a.AccountKeeper.GetAccount(e.Ctx, me) == nil {
+			a.AccountKeeper.SetAccount(e.Ctx, a.AccountKeeper.NewAccountWithAddress(e.Ctx, me))
+		}
 	}
 	return &arEnv{e: e, txCfg: txCfg, priv: priv, me: me, other: addrN(7), val: sdk.ValAddress(addrN(9)),
-		built: ante.NewAnteHandler(options), wired: wired}, nil
+		built: arBuilt, wired: arWired}, nil
 }
 
 // ---------------------------------------------------------------- messages
@@ -483,6 +502,9 @@ func (x *arEnv) signDirect(b client.TxBuilder) (ok bool) {
 	}()
 	a := x.e.App
 	acc := a.AccountKeeper.GetAccount(x.e.Ctx, x.me)
+	if acc == nil {
+		return false
+	}
 	seq := acc.GetSequence()
 	mode := signing.SignMode_SIGN_MODE_DIRECT
 	sig := signing.SignatureV2{PubKey: x.priv.PubKey(), Data: &signing.SingleSignatureData{SignMode: mode}, Sequence: seq}
@@ -759,7 +781,7 @@ func arRunCase(id string, in arInput) (Case, error) {
 	if err := arValidate(in.Msgs, true); err != nil {
 		return Case{}, err
 	}
-	x, err := arNewEnv()
+	x, err := arNewEnv(in.Sign != "none")
 	if err != nil {
 		return Case{}, err
 	}
@@ -1077,19 +1099,27 @@ func arExhDriver(cfg Config, out *Out) error {
 	if cfg.Replay != "" {
 		return arDriver(cfg, out)
 	}
-	maxNodes := 3
+	// quick: all trees with <= 4 nodes; thorough: <= 5 nodes over the full alphabet and
+	// exactly 6 nodes over {eth, free plain, grant of a blocked url, exec}
+	maxNodes := 4
 	if cfg.Tier == "thorough" {
 		maxNodes = 6
 	}
 	if v, ok := cfg.Args["nodes"]; ok {
 		fmt.Sscanf(v, "%d", &maxNodes)
 	}
+	full := arExhLeaves
 	i := 0
 	for n := 0; n <= maxNodes; n++ {
+		if n >= 6 {
+			arExhLeaves = []arNode{{K: "eth"}, {K: "plain", U: 2}, {K: "grant", U: 1}}
+			arForestMemo = map[int][][]arNode{}
+		}
 		for _, msgs := range arForests(n) {
-			// skeletons made of execs only are also run with exec-only leaves; every tree
-			// is run on the cosmos route (signed) — option combinations are the other driver's job
-			c, err := arRunCase(fmt.Sprintf("exh%d-%d", n, i), arInput{Msgs: msgs, Opts: []string{}, Sign: "cosmos"})
+			// unsigned transactions: the prefix decorators decide before any signature is looked
+			// at; the route alternates between the two Cosmos chains
+			opts := [][]string{{}, {"W"}, {"D"}}[i%3]
+			c, err := arRunCase(fmt.Sprintf("exh%d-%d", n, i), arInput{Msgs: msgs, Opts: opts, Sign: "none"})
 			if err != nil {
 				return err
 			}
@@ -1097,6 +1127,8 @@ func arExhDriver(cfg Config, out *Out) error {
 			i++
 		}
 	}
+	arExhLeaves = full
+	arForestMemo = map[int][][]arNode{}
 	return nil
 }
 
@@ -1156,9 +1188,6 @@ func arDriver(cfg Config, out *Out) error {
 			i++
 			return nil
 		})
-	}
-	if cfg.Args["sweep"] == "options" {
-		return arOptionSweep(out)
 	}
 	r := NewRng(cfg.Seed)
 	for i := 0; i < cfg.N; i++ {
